@@ -443,7 +443,29 @@ class Interp:
             self.p.heap[key] = [z3.Const('H0!%s!%d' % (key, i), z3.ArraySort(z3.IntSort(), s))
                                 for i, s in enumerate(kind.leaf_sorts())]
             self.assume_field_valid(kind, self.p.heap[key])
+            self.assume_initial_refs_old(kind, self.p.heap[key])
         return self.p.heap[key]
+
+    def assume_initial_refs_old(self, kind, arrs):
+        """The state a function starts in only holds references allocated before it started (below alloc0): nothing
+        it allocates itself ("fresh") can already be stored anywhere."""
+        k, off = (kind.inner, 1) if isinstance(kind, K.Opt) else (kind, 0)
+        a0 = z3.Int('alloc0')
+        o = self.p.fresh('h0!o', z3.IntSort())
+        if isinstance(k, K.Ref):
+            self.p.assume(K.forall([o], z3.Select(arrs[off], o) < a0, patterns=[z3.Select(arrs[off], o)]))
+        elif isinstance(k, K.Set) and isinstance(k.elem, K.Ref):
+            x = self.p.fresh('h0!x', z3.IntSort())
+            mem = z3.Select(z3.Select(arrs[off + 1], o), x)
+            self.p.assume(K.forall([o, x], z3.Implies(mem, x < a0), patterns=[mem]))
+        elif isinstance(k, K.Map) and isinstance(k.val, K.Ref):
+            x = self.p.fresh('h0!k', k.key.leaf_sorts()[0])
+            val = z3.Select(z3.Select(arrs[off + 5], o), x)
+            self.p.assume(K.forall([o, x], val < a0, patterns=[val]))
+        elif isinstance(k, K.Seq) and isinstance(k.elem, K.Ref):
+            i = self.p.fresh('h0!i', z3.IntSort())
+            val = z3.Select(z3.Select(arrs[off + 1], o), i)
+            self.p.assume(K.forall([o, i], val < a0, patterns=[val]))
 
     def ref_valid(self, t, cls):
         ids = [self.p.ctx.class_id(c) for c in self.w.subclasses(cls)] or [self.p.ctx.class_id(cls)]
@@ -1136,7 +1158,7 @@ K.from_py_const = _from_py_const
 
 BUILTINS = {'len', 'isinstance', 'list', 'tuple', 'set', 'dict', 'sorted', 'enumerate',
             'callable', 'bool', 'str', 'repr', 'getattr', 'hasattr', 'int', 'zip',
-            'reversed', 'all', 'any', 'super', 'OrderedDict', 'iter', 'type', 'min', 'max', 'issubclass', 'setattr'}
+            'reversed', 'deepcopy', 'all', 'any', 'super', 'OrderedDict', 'iter', 'type', 'min', 'max', 'issubclass', 'setattr'}
 SPEC_BUILTINS = {'old', 'implies', 'iff', 'forall', 'exists', 'result', 'ite', 'dtype_is',
                  'raised', 'fresh_ref', 'range', 'live', 'key_at', 'log_len', 'distinct',
                  'unchanged', 'const_seq', 'allocated', 'exc_attr', 'has_exc_attr', '_', 'text_type', 'fun', 'index_in', 'last_sorted', 'use_lemma', 'src_index', 'dst_index', 'same', 'to_str', 'sel', 'is_none', 'some', 'truthy'}
